@@ -12,7 +12,16 @@
 #define STRCONV_H
 t_char nondet_char(void);
 int __osmt_thrown;
+#ifdef OSMT_STATIC_MALLOC
+/* value-only jobs for longer literals: the conversion buffer is a static block of the largest size the bound admits (cbmc's
+   dynamic objects of symbolic size make the formula explode); the request is checked against the block, and the in-bounds
+   obligations of the real heap block are discharged by the instrumented job at the smaller bound */
+static t_char osmt_blk[4 * OSMT_N + 16]; static t_char osmt_blk1[1]; static int osmt_blk_used;
+void *malloc(__CPROVER_size_t n) { if (n == 1) return osmt_blk1; __CPROVER_assert(!osmt_blk_used, "one conversion buffer per call"); __CPROVER_assert(n <= sizeof(osmt_blk), "conversion buffer request within the bound's maximum"); osmt_blk_used = 1; return osmt_blk; }
+void free(void *p) { }
+#else
 void *malloc(__CPROVER_size_t); void free(void *);
+#endif
 #ifndef OSMT_N
 #define OSMT_N 5
 #endif
